@@ -48,6 +48,9 @@ func TestVerifC09(t *testing.T) {
 	if verifrt.WantCheck("C09.rotate") {
 		c09Rotate(t)
 	}
+	if verifrt.WantCheck("C09.ticking") {
+		c09Ticking(t)
+	}
 }
 
 // c09Span sweeps counterSpan over every day of 1990..2069.
@@ -270,6 +273,27 @@ func c09Rotate(t *testing.T) {
 			if !strings.HasSuffix(nameA, "-"+verifref.DateString(wb)+".v1.count") {
 				res.Violate("name-date", fmt.Sprintf("file name %s does not carry the begin date %s", filepath.Base(nameA), verifref.DateString(wb)), replay)
 			}
+			if i%5 == 0 {
+				// the week-end setting changes and the same program starts again on
+				// the same day: same file name, different end. The second process
+				// must either refuse the file or agree with what the file records.
+				we2 := (we + 1 + rnd.Intn(6)) % 7
+				s2 := fmt.Sprintf("%d\n", we2)
+				c09Weekends(&s2)
+				f2 := &file{}
+				exp2 := f2.rotate1()
+				res.Hit("setting-changed-same-day")
+				if m2 := f2.current.Load(); m2 != nil {
+					d2, _ := os.ReadFile(m2.f.Name())
+					if cf2, err := verifref.ParseCounterFile(d2); err == nil {
+						if rec := cf2.MetaKV["TimeEnd"]; rec != exp2.Format(time.RFC3339) {
+							res.Violate("mapped-file-end-disagrees", fmt.Sprintf("a process whose span ends %s (it will rotate then) is counting into %s, whose recorded end (what the uploader goes by) is %s", exp2.Format(time.RFC3339), filepath.Base(m2.f.Name()), rec), replay)
+						}
+					}
+					m2.close()
+				}
+				c09Weekends(&s)
+			}
 			c := &Counter{name: "verif/c09", file: f}
 			c.Add(3)
 			dataA, _ := os.ReadFile(nameA)
@@ -345,7 +369,66 @@ func c09Rotate(t *testing.T) {
 			res.Sample(map[string]any{"case": i, "day": verifref.DateString(day), "weekend": we, "delta": delta.String()})
 		}
 	}
-	res.Require("before-end", "at-or-after-end", "same-span")
+	res.Require("before-end", "at-or-after-end", "same-span", "setting-changed-same-day")
+	if err := res.Write(); err != nil {
+		t.Fatal(err)
+	}
+}
+
+// c09Ticking: the clock advances between readings and crosses midnight while a
+// span is being computed.
+func c09Ticking(t *testing.T) {
+	const check = "C09.ticking"
+	res := verifrt.NewResult(check)
+	res.Rule = "counterSpan with a clock that advances on every reading (steps 1ns..200ms) and starts up to 300ms before midnight UTC, on days around month/year/leap boundaries x all seven settings: whichever of the two days the implementation takes as 'today', the span must be self-consistent: begin at 00:00 UTC of a day the clock showed, end at 00:00 UTC 1..7 days later on the configured weekday. distinct = (day, setting, start offset, step) tuples"
+	dir := c09SetDir()
+	defer os.RemoveAll(dir)
+	days := []int64{verifref.DaysFromCivil(2024, 2, 28), verifref.DaysFromCivil(2024, 2, 29), verifref.DaysFromCivil(2023, 12, 31), verifref.DaysFromCivil(2025, 6, 30), verifref.DaysFromCivil(2026, 10, 3)}
+	for d := int64(0); d < 7; d++ {
+		days = append(days, verifref.DaysFromCivil(2031, 3, 9)+d)
+	}
+	n := 0
+	for _, day := range days {
+		for we := 0; we < 7; we++ {
+			s := fmt.Sprintf("%d\n", we)
+			c09Weekends(&s)
+			for _, before := range []time.Duration{1, 50 * time.Millisecond, 300 * time.Millisecond} {
+				for _, step := range []time.Duration{1, time.Millisecond, 100 * time.Millisecond, 200 * time.Millisecond} {
+					n++
+					if !verifrt.WantCase(check, n) {
+						continue
+					}
+					cur := time.Unix((day+1)*86400, 0).UTC().Add(-before)
+					readings := 0
+					CounterTime = func() time.Time {
+						t := cur
+						cur = cur.Add(step)
+						readings++
+						return t
+					}
+					begin, end, err := counterSpan()
+					res.Eval()
+					res.Distinct(fmt.Sprintf("%d/%d/%v/%v", day, we, before, step))
+					rp := verifrt.CaseReplay(n, map[string]any{"day": verifref.DateString(day), "weekend": we, "before_midnight": before.String(), "step": step.String()})
+					if err != nil {
+						res.Violate("span-error", err.Error(), rp)
+						continue
+					}
+					if readings > 1 {
+						res.Hit("several-clock-readings")
+					}
+					bd := begin.Unix() / 86400
+					k := (end.Unix() - begin.Unix()) / 86400
+					if begin.Unix()%86400 != 0 || end.Unix()%86400 != 0 || (bd != day && bd != day+1) || k < 1 || k > 7 || verifref.Weekday(end.Unix()/86400) != we {
+						res.Violate("inconsistent-span-across-midnight", fmt.Sprintf("clock crossing midnight after %s (step %v, %d readings), weekend=%d: span [%s, %s) — end is not the configured weekday 1..7 days after begin", verifref.DateString(day), step, readings, we, begin.Format(time.RFC3339), end.Format(time.RFC3339)), rp)
+					}
+					res.Hit("crossing-checked")
+				}
+			}
+		}
+	}
+	res.Sample(map[string]any{"days": len(days), "settings": 7, "offsets": 3, "steps": 4})
+	res.Require("crossing-checked")
 	if err := res.Write(); err != nil {
 		t.Fatal(err)
 	}
